@@ -71,7 +71,7 @@ def run(rep, tier):
     for b, (c, levels) in zip(builds, cfgs):
         for lv in levels:
             jobs.append((b, lv))
-    lowered = repo.lower_many([(b, dict(group="lib", level=lv,
+    lowered = repo.lower_many([(b, dict(group="lib", level=lv, scev=True,
                                         tolerate=tuple(u.rel for u in b.group("lib", ("c++",)))))
                                for b, lv in jobs])
     rule_sink(rep, builds[0])
